@@ -403,6 +403,17 @@ func (r *DocumentHandler) ResolveDocument(shortOrLongFormDID string,
 
 	// if document was not found on the blockchain and initial value has been provided resolve using initial value
 	if createReq != nil && strings.Contains(err.Error(), "not found") {
+		// initial state has no versions: a request for a specific version must not be answered from it
+		// (version errors echo the requested version, so they may contain the text that is matched above)
+		resolutionOpts, optsErr := document.GetResolutionOptions(opts...)
+		if optsErr != nil {
+			return nil, optsErr
+		}
+
+		if resolutionOpts.VersionID != "" || resolutionOpts.VersionTime != "" {
+			return nil, err
+		}
+
 		return r.resolveRequestWithInitialState(uniquePortion, shortOrLongFormDID, createReq, pv)
 	}
 
